@@ -11,6 +11,7 @@ FIXED = [
  ("F33", ["C01"], "8917768", "descending / unsorted field index list silently returned unrelated data of the expected shape"),
  ("F34", ["C01"], "0eef8cf", "empty field selection (pck[1:0]) returned one component of unrelated data"),
  ("F30", ["C19"], "8eac8bd", "point query on a plotfile whose domain origin is not zero returned 0.0"),
+ ("F3",  ["C03"], "13eb77a", "taste with binary_data=True and binary_headers or binary_shape off raised NameError, and silently skipped the data validation with both on (taste_binary_data was not runnable)"),
  ("F9",  ["C09"], "a5ac49a", "pestle with a level limit skipped the coarser levels and integrated the reader's finest level"),
  ("F10", ["C09"], "e5d41ae", "occupancy map at the resolution of the smallest box over-masked coarse cells for 16/24-cell boxes or boxes offset by half the smallest box"),
  ("F11", ["C10"], "56ada2f", "whip saved an all-zero grid for every plotfile (bytes header passed to a str parser, error swallowed)"),
@@ -48,14 +49,6 @@ FIXED = [
  ("F19", ["C13", "C18"], "584d6d0", "marinate with a trailing slash wrote plt/.pkl inside the input"),
 ]
 OPEN = [
- dict(id="F3", properties=["C03"], status="open",
-      what="taste with binary_data=True and binary_headers or binary_shape off raises NameError (taste_binary_data is unreachable otherwise and not runnable); needs a rewrite of that method and a decision on NaN handling",
-      predicate="option set with binary_data and not (binary_headers and binary_shape) - 6 of the 16 option sets",
-      repros=[dict(property="C03", case=dict(only_opts=[True, False, True, False], spec=dict(
-          mesh=dict(ndims=2, bf=2, m=1, nb0=[1, 1], nlev=1, rects=[], no_unit=False, chop_seed=0, order_seed=0,
-                    layout=dict(cls="single", seed=0, nfiles=1)),
-          geom=dict(iso=True, lengths=[1.0, 1.0], origin=[0.0, 0.0]), fields=["temp"], time=0.25, step=7,
-          payload=dict(kind="coded", seed=0), style="amrex", extra_factors=0)))]),
 ]
 doc = dict(
     note="Known-findings file of /verif (committed; checks never write it). 'open' entries are genuine defects recorded rather than repaired: the check prints 'KNOWN-FINDING: property=<id> ...' when the pinned repro still fails and routes generated cases around exactly the stated predicate. 'fixed' entries suppress nothing: their repro cases live in corpus/<property>/ and must pass.",
